@@ -474,9 +474,30 @@ def rules_c11(ctx):
             t = f.term(f.n(r)['ch'][0], inline=True)
             ok = t[0] == 'call' and t[1] == 'std::binary_search' and len(t[2]) == 3 and t[2][2] == KEY and _pgm_range_ok(('x', KEY, t[2][0], t[2][1]), KEY)
             obs.append(Ob('KIND', f, r, 'contains(key) is std::binary_search for key inside the range search(key) returned', fmt_term(t)[:120], OK if ok else VIOLATED, arm='contains'))
-    for f in ctx.need(M + '::upper_bound', ctx.units):
+    ub_jobs = []
+    for f0 in ctx.need(M + '::upper_bound', ctx.units):
+        KEY0 = ('param', f0.params[0]['name'])
+        delegated = False
+        for r in f0.returns():
+            t = strip_cast(f0.term(f0.n(r)['ch'][0], inline=False))
+            # `return helper(it, key)`: the gallop lives in a member helper; analyse the helper with `it` bound to the argument
+            if t[0] == 'call' and t[1].startswith(M + '::') and len(t) > 3 and t[3] == THIS and not kinds.kind_of_term(t):
+                for h in f0.unit.fns(t[1]):
+                    if h.record == f0.record and len(h.params) == len(t[2]) and h.cfg and KEY0 in [strip_cast(a) for a in t[2]]:
+                        kidx = [strip_cast(a) for a in t[2]].index(KEY0)
+                        starts = {}
+                        for j, a in enumerate(t[2]):
+                            if j != kidx:
+                                a_ = strip_cast(a)
+                                ini = f0.single_def(a_[2]) if a_[0] == 'local' else None
+                                starts[('param', h.params[j]['name'])] = kinds.kind_of_term(f0.term(ini, inline=True)) if ini else kinds.kind_of_term(f0.term(f0.n(r)['ch'][0], inline=True)[2][j] if False else a_)
+                        ub_jobs.append((h, ('param', h.params[kidx]['name']), KEY0, starts))
+                        delegated = True
+                        break
+        if not delegated:
+            ub_jobs.append((f0, KEY0, KEY0, {}))
+    for (f, KEY, KEY_outer, starts) in ub_jobs:
         g = graph(f)
-        KEY = ('param', f.params[0]['name'])
         END = ('call', M + '::end', (), THIS)
         for r in f.returns():
             k = kinds.kind_of_term(f.term(f.n(r)['ch'][0], inline=False))
@@ -487,7 +508,7 @@ def rules_c11(ctx):
             # window: [it + step/2, min(it + step, end())) with it = FIRST_GT(key) inside the PGM range
             lo, hi = strip_cast(k[2]), strip_cast(k[3])
             itv = k0 = None
-            if lo[0] == 'op' and lo[1] == '+' and lo[2][0] == 'local' and strip_cast(lo[3])[0] == 'op' and strip_cast(lo[3])[1] == '/' and strip_cast(lo[3])[3] == ('lit', 2):
+            if lo[0] == 'op' and lo[1] == '+' and lo[2][0] in ('local', 'param') and strip_cast(lo[3])[0] == 'op' and strip_cast(lo[3])[1] == '/' and strip_cast(lo[3])[3] == ('lit', 2):
                 itv, step = lo[2], strip_cast(strip_cast(lo[3])[2])
             win_ok = False
             start_ok = False
@@ -520,10 +541,15 @@ def rules_c11(ctx):
                     hi_ok = False   # after the loop it + step may be past end()
                 else:
                     hi_ok = None
-                init = f.single_def(itv[2])
-                k0 = kinds.kind_of_term(f.term(init, inline=True)) if init else None
+                if itv[0] == 'param':
+                    k0 = starts.get(itv)      # the kind of the argument the caller passes for `it`
+                    kk = KEY_outer
+                else:
+                    init = f.single_def(itv[2])
+                    k0 = kinds.kind_of_term(f.term(init, inline=True)) if init else None
+                    kk = KEY
                 # FIRST_GE is as good a start as FIRST_GT: either way everything before `it` is <= key and *it >= key
-                start_ok = bool(k0) and k0[0] in ('FIRST_GT', 'FIRST_GE') and k0[1] == KEY and _pgm_range_ok(k0, KEY)
+                start_ok = bool(k0) and k0[0] in ('FIRST_GT', 'FIRST_GE') and k0[1] == kk and _pgm_range_ok(k0, kk)
                 # gallop loop: continue while (it + step < end()) && (*(it + step) == key), doubling the step
                 NEXT = ('op', '+', itv, step)
                 for b in g.reach:
